@@ -38,7 +38,7 @@ type annObs struct {
 
 func runC16(r *Run) {
 	r.Result.Rule = "scenario = simulated network of 4..30 nodes answering get_peers with distinct tokens / without token / with values / with an error / not at all, replies released in PRNG order; options crossed (port / implied port / no announce / scrape), consumer reading Peers or not, Close or StopTraversing at a random point or none; every announce_peer the server emits is decoded and compared with the token that very node issued; non-trivial = run in which at least one announce_peer is sent"
-	n := r.n(120, 3000)
+	n := r.n(100, 2500)
 	for i := 0; i < n; i++ {
 		r.c16Scenario(i)
 	}
@@ -48,7 +48,8 @@ func (r *Run) c16Scenario(i int) {
 	rng := r.rng
 	conn := newFakeConn(nil)
 	cfg := baseConfig(conn)
-	cfg.QueryResendDelay = func() time.Duration { return 4 * time.Millisecond }
+	// long enough that a reply injected within a millisecond never races the query's time-out, even on a loaded machine
+	cfg.QueryResendDelay = func() time.Duration { return 150 * time.Millisecond }
 	s, err := dht.NewServer(cfg)
 	if err != nil {
 		panic(err)
@@ -59,7 +60,7 @@ func (r *Run) c16Scenario(i int) {
 	var nodes []*simNode
 	byAddr := map[string]*simNode{}
 	for j := 0; j < nn; j++ {
-		sn := &simNode{addr: udp(r.randIP([]int{0, 0, 0, 1}[rng.Intn(4)]), 2000+j), id: r.structuredID(target), mode: []int{0, 0, 0, 0, 1, 2, 3, 4}[rng.Intn(8)]}
+		sn := &simNode{addr: udp(r.randIP([]int{0, 0, 0, 1}[rng.Intn(4)]), 2000+j), id: r.structuredID(target), mode: []int{0, 0, 0, 0, 0, 0, 0, 0, 1, 1, 2, 2, 3, 3, 0, 4}[rng.Intn(16)]}
 		if sn.id == ([20]byte{}) || sn.id == s.ID() {
 			sn.id = r.randID()
 		}
